@@ -180,6 +180,12 @@ def seq_case(rnd, name, kind, bk, param, syms, shape):
     return Case(name, cmds, {"kind": "seq", "skind": kind, "bk": bk, "param": param, "syms": syms, "shape": shape})
 
 
+def sanitizer_scope(case):
+    """a sanitizer report during build/save/load counts as a failure for the structures the dictionaries use (RG, RRR, the two
+    wavelet trees); SDArray / DArray are bundled but used by no dictionary, and C19 speaks about their answers only"""
+    return case.meta.get("bskind") not in ("SDARRAY", "DARRAY")
+
+
 def gen(tier, seed):
     rnd = random.Random(seed * 104729 + 19)
     cases = []
